@@ -22,6 +22,11 @@ counter attribute of the brand-new connection (9998, 9999, 10000, 19999, 99999, 
 anything is sent — no schedule bound reaches 10**4 requests — and "jump" scenarios set it to preset+10**4
 (10**8) after the threads and issue the same number of requests again on the SAME connection: all ids of
 the execution must be pairwise distinct and the numbers must be the injected counter values onwards.
+"fault" scenarios are FAULT INJECTION on the transport: ``opener.open`` is an explicit scheduling point (the
+thread sits inside ``open()`` while the other thread may issue and finish whole requests) and then raises
+``urllib.error.URLError`` / ``HTTPError`` for the marked request.  A request that reached ``open()`` was
+SENT: it keeps its number, later numbers continue from it, and the exception must reach its caller.
+Caller-supplied ids include the falsy values ``''``, ``b''`` and ``0`` (still ids supplied by the caller).
 "shared headers" scenarios pass the *same* non-empty caller-owned headers dict (without
 ``X-Request-ID``) to every request, sequentially within a thread and from both threads: an id the
 library leaks into the caller's dict would be re-sent as if the caller had supplied it.
@@ -34,7 +39,9 @@ exception.  The 4-hex connection tag and the id layout are not compared (the num
 last dash-separated group of the id).
 """
 
+import io
 import random
+import urllib.error
 import urllib.request
 
 from ak import conn_http
@@ -76,7 +83,9 @@ REQUIRED_FEATURES = ["threads:2", "preemptions:0", "preemptions:1", "preemptions
                      "shared-caller-headers-dict", "shared-caller-headers-dict:two-threads",
                      "shared-caller-headers-dict:same-thread", "preset-counter", "preset-counter:crosses-10000",
                      "preset-counter:crosses-decimal-width", "preset-counter:beyond-8-digits",
-                     "preset-counter:jump+10000", "preset-counter:jump+100000000"]
+                     "preset-counter:jump+10000", "preset-counter:jump+100000000",
+                     "caller-id:falsy-str", "caller-id:falsy-bytes", "caller-id:falsy-int",
+                     "fault:URLError", "fault:HTTPError", "fault:other-request-completed-while-inside-open"]
 
 
 def required_features(tier):
@@ -84,9 +93,17 @@ def required_features(tier):
 
 
 # --------------------------------------------------------------------------- scenarios
-def _r(via, own=None, hdr=None):
-    """hdr="shared": the request passes the execution-wide caller-owned headers dict (no X-Request-ID)."""
-    return {"via": via, "own_id": own, "hdr": hdr}
+def _r(via, own=None, hdr=None, fault=None):
+    """own: caller-supplied X-Request-ID (str, int, or {"bytes": hex}); None = the caller supplies none.
+    hdr="shared": the request passes the execution-wide caller-owned headers dict (no X-Request-ID).
+    fault: FAULT INJECTION — the transport answers this request by raising "URLError" / "HTTPError"."""
+    return {"via": via, "own_id": own, "hdr": hdr, "fault": fault}
+
+
+def _own_value(own):
+    if isinstance(own, dict):
+        return bytes.fromhex(own["bytes"])
+    return own
 
 
 OWN_ID = "caller-supplied-id-7"
@@ -108,6 +125,20 @@ _SCEN = {
                                       "sparse", False),
     # ---- non-initial start states (STATE INJECTION, see _inject_counter): the counter of the brand-new
     # connection is preset, so that the decimal-width / modulo boundaries of the id format are crossed
+    # ---- falsy caller-supplied ids: '' , b'' , 0 are ids supplied by the caller
+    "2t-ownid-emptystr+bauth|clone": ([[_r("base", ""), _r("bauth")], [_r("clone")]], "sparse", True),
+    "2t-ownid-emptybytes|prefixed+base": ([[_r("bauth", {"bytes": ""})], [_r("prefixed"), _r("base")]], "sparse", True),
+    "2t-ownid-zero-fresh-clone|base": ([[_r("clone", 0), _r("base")], [_r("base")]], "sparse", False),
+    # ---- FAULT INJECTION on the transport: open() raises for the marked request after the thread sat
+    # inside open(); the other thread's request succeeds; the failed request was sent and keeps its number
+    "2t-urlerror-base|bauth": ([[_r("base", fault="URLError")], [_r("bauth")]], "sparse", True),
+    "2t-httperror-clone|base": ([[_r("clone", fault="HTTPError")], [_r("base")]], "sparse", True),
+    "2t-urlerror-bauth+base|prefixed": ([[_r("bauth", fault="URLError"), _r("base")], [_r("prefixed")]],
+                                        "sparse", True),
+    "2t-fresh-urlerror|urlerror": ([[_r("base", fault="URLError")], [_r("clone", fault="URLError")]],
+                                   "sparse", False),
+    "3t-urlerror|httperror|base": ([[_r("bauth", fault="URLError")], [_r("clone", fault="HTTPError")], [_r("base")]],
+                                   "sparse", True),
     "2t-preset9999-base|bauth": ([[_r("base")], [_r("bauth")]], "sparse", True, 9999),
     "2t-preset9998-fresh-clone|prefixed": ([[_r("clone")], [_r("prefixed")]], "sparse", False, 9998),
     "2t-preset10000-base|clone": ([[_r("base")], [_r("clone")]], "sparse", True, 10000),
@@ -127,6 +158,10 @@ PLAN = {
     "quick": [("2t-base|bauth", 2, 6), ("2t-prefixed|clone", 2, 6), ("2t-fresh-base|clone", 2, 6),
               ("2t-ownid+bauth|clone", 2, 8), ("2t-sharedhdr-base+prefixed|bauth", 2, 8),
               ("2t-full-base|clone", 1, 4), ("2t-full-fresh-sharedhdr-bauth|base", 1, 4),
+              ("2t-ownid-emptystr+bauth|clone", 2, 8), ("2t-ownid-emptybytes|prefixed+base", 1, 2),
+              ("2t-ownid-zero-fresh-clone|base", 1, 2),
+              ("2t-urlerror-base|bauth", 2, 6), ("2t-httperror-clone|base", 2, 6),
+              ("2t-urlerror-bauth+base|prefixed", 1, 2), ("2t-fresh-urlerror|urlerror", 1, 2),
               ("2t-preset9999-base|bauth", 2, 6), ("2t-preset9998-fresh-clone|prefixed", 1, 2),
               ("2t-preset10000-base|clone", 1, 2), ("2t-preset99999-bauth|base", 1, 2),
               ("2t-preset19999-ownid+base|clone", 1, 2), ("2t-preset1e8-1-base|bauth", 1, 2),
@@ -136,6 +171,11 @@ PLAN = {
                  ("2t-ownid+bauth|clone", 3, 16), ("2t-sharedhdr-base+prefixed|bauth", 3, 16), ("2t-2x2", 2, 8),
                  ("2t-full-base|clone", 2, 16), ("2t-full-fresh-sharedhdr-bauth|base", 2, 16),
                  ("3t-base|bauth|clone", 2, 8), ("3t-fresh-ownid|prefixed|clone", 2, 8),
+                 ("2t-ownid-emptystr+bauth|clone", 3, 16), ("2t-ownid-emptybytes|prefixed+base", 2, 8),
+                 ("2t-ownid-zero-fresh-clone|base", 2, 8),
+                 ("2t-urlerror-base|bauth", 3, 12), ("2t-httperror-clone|base", 3, 12),
+                 ("2t-urlerror-bauth+base|prefixed", 2, 8), ("2t-fresh-urlerror|urlerror", 2, 6),
+                 ("3t-urlerror|httperror|base", 2, 8),
                  ("2t-preset9999-base|bauth", 3, 12), ("2t-preset9998-fresh-clone|prefixed", 2, 6),
                  ("2t-preset10000-base|clone", 2, 6), ("2t-preset99999-bauth|base", 2, 6),
                  ("2t-preset19999-ownid+base|clone", 2, 8), ("2t-preset1e8-1-base|bauth", 2, 6),
@@ -189,12 +229,38 @@ class _Resp:
         return {}
 
 
+class _ErrBody(io.BytesIO):
+    """fp of an injected HTTPError: what do_request reads and logs."""
+    def __init__(self, method):
+        super().__init__(b'{"error": "injected"}')
+        self._method = method
+
+    def getheaders(self):
+        return {}
+
+
 class Recorder:
+    """The transport.  A request is SENT once it reaches ``open``; the thread then sits "inside open()"
+    at an explicit scheduling point (other threads may run whole requests meanwhile) and is finally
+    answered according to the scenario: canned response, URLError or HTTPError."""
+
     def __init__(self):
         self.requests = []
+        self.faults = {}          # token -> "URLError" | "HTTPError"
+        self.overtaken_faulty = 0
 
     def open(self, request, *a, **kw):
         self.requests.append(request)
+        n = len(self.requests)
+        sched.point("opener.open")
+        fault = self.faults.get(_token(request))
+        if fault and len(self.requests) != n:
+            self.overtaken_faulty += 1
+        if fault == "URLError":
+            raise urllib.error.URLError("connection refused (injected)")
+        if fault == "HTTPError":
+            raise urllib.error.HTTPError(request.full_url, 503, "Service Unavailable (injected)", {},
+                                         _ErrBody(request.get_method()))
         return _Resp(request.get_method())
 
 
@@ -272,7 +338,7 @@ def _build_world():
 
 
 def _do(world, req, token):
-    headers = {"X-Request-ID": req["own_id"]} if req["own_id"] is not None else None
+    headers = {"X-Request-ID": _own_value(req["own_id"])} if req["own_id"] is not None else None
     if req.get("hdr") == "shared":
         assert headers is None
         headers = world["shared_headers"]       # one caller-owned dict object for the whole execution
@@ -339,12 +405,23 @@ def execute(threads, deviations, warm=True, preset=None, jump=None):
     if preset is not None:
         _inject_counter(world, preset)
     if warm:
-        _do(world, _r("base"), "warm")
+        _do(world, _r("base"), "warm")      # (cannot block: nothing has run on this connection yet)
+
+    raised = {}
+    for t, reqs in enumerate(threads):
+        for k, req in enumerate(reqs):
+            if req.get("fault"):
+                rec.faults[f"t{t}r{k}"] = req["fault"]
 
     def body(t):
         def run():
             for k, req in enumerate(threads[t]):
-                _do(world, req, f"t{t}r{k}")
+                try:
+                    _do(world, req, f"t{t}r{k}")
+                except Exception as e:  # noqa - an injected fault must reach the caller: recorded, judged
+                    if not req.get("fault"):
+                        raise
+                    raised[f"t{t}r{k}"] = type(e).__name__
         return run
 
     s = sched.Scheduler(len(threads), deviations)
@@ -361,13 +438,15 @@ def execute(threads, deviations, warm=True, preset=None, jump=None):
                     _do(world, _r(("base", "bauth", "clone")[i % 3]), f"j{i}")
         except sched.HarnessError:
             raise
+        except sched.UncontrolledBlock as e:
+            ex.deadlock = {"sequential phase": str(e)}
         except Exception as e:  # noqa
             final_err = f"{type(e).__name__}: {e}"
     sent = {}
     for rq in rec.requests:
         sent.setdefault(_token(rq), []).append(_reqid(rq))
     obs = {"sent": sent, "errors": ex.errors, "deadlock": ex.deadlock, "shared_impl": shared,
-           "final_error": final_err}
+           "final_error": final_err, "raised": raised, "overtaken_faulty": rec.overtaken_faulty}
     return ex, obs
 
 
@@ -381,8 +460,13 @@ def judge(threads, obs, warm=True, preset=None, jump=None):
         return ("request-raised-" + e.split(":")[0], "a request raised under this schedule", e,
                 "request completes"), "raised"
     sent = obs["sent"]
-    seg1 = ([("warm", None)] if warm else []) + [(f"t{t}r{k}", rq["own_id"]) for t, reqs in enumerate(threads)
-                                                 for k, rq in enumerate(reqs)]
+    for t, reqs in enumerate(threads):
+        for k, rq in enumerate(reqs):
+            if rq.get("fault") and obs["raised"].get(f"t{t}r{k}") != rq["fault"]:
+                return ("fault-not-propagated", "the transport's exception did not reach the caller of the request",
+                        obs["raised"].get(f"t{t}r{k}"), rq["fault"]), "swallowed"
+    seg1 = ([("warm", None)] if warm else []) + [(f"t{t}r{k}", _own_value(rq["own_id"]))
+                                                 for t, reqs in enumerate(threads) for k, rq in enumerate(reqs)]
     seg2 = []
     if jump is None:
         seg1.append(("final", None))
@@ -397,7 +481,7 @@ def judge(threads, obs, warm=True, preset=None, jump=None):
     for tok, own in tokens:
         rid = sent[tok][0]
         if own is not None:
-            if rid != own:
+            if rid != own or type(rid) is not type(own):
                 return ("caller-id-changed", f"caller supplied id of {tok} was not sent unchanged", rid, own), "own-changed"
         else:
             if rid is None:
@@ -477,6 +561,12 @@ def _features(name, threads, mode, warm=True, preset=None, jump=None):
                    "clone": "via:clone-wrapper"}[rq["via"]])
             if rq["own_id"] is not None:
                 f.add("caller-id")
+                v = _own_value(rq["own_id"])
+                if not v:
+                    f.add("caller-id:falsy")
+                    f.add("caller-id:falsy-" + type(v).__name__)
+            if rq.get("fault"):
+                f.add("fault:" + rq["fault"])
     if mode == "full":
         f.add("points:full-do_request")
     return sorted(f)
@@ -501,6 +591,8 @@ def _visit_factory(name, acc, seed):
             feats.append("preempt-in-critical-region")
         if ex.blocked_events:
             feats.append("blocked-on-lock")
+        if obs["overtaken_faulty"]:
+            feats.append("fault:other-request-completed-while-inside-open")
         acc.case(nontrivial=bool(ex.preempt_in_cs or ex.blocked_events), features=feats,
                  outcome=f"{name} {label}")
         acc.trans(ex.nsteps)
